@@ -27,10 +27,18 @@ def mk_class(variant):
     class Sub(object):
         def __init__(self):
             self.p = vsc.rand_bit_t(2)
+            # lists declared random inside a sub-object that is not: their size and elements are constants too
+            self.rs = vsc.randsz_list_t(vsc.bit_t(2))
+            self.rs.append(2)
+            self.rs.append(1)
+            self.rf = vsc.rand_list_t(vsc.bit_t(2), sz=2)
 
         @vsc.constraint
         def cp(self):
             self.p < 2
+            self.rs.size < 4
+            with vsc.foreach(self.rf) as it:
+                it > 0
 
     rl = vsc.rangelist(1, (2, 3)) if variant == "V2" else None
 
@@ -69,7 +77,23 @@ class World(object):
     # ---- reads -------------------------------------------------------------
     def values(self):
         o = self.o
-        return {"a": int(o.a), "b": int(o.b), "x": int(o.x), "sp": int(o.s.p), "nl": [int(v) for v in o.nl]}
+        return {"a": int(o.a), "b": int(o.b), "x": int(o.x), "sp": int(o.s.p), "nl": [int(v) for v in o.nl],
+                "sl": self.sub_lists()}
+
+    def sub_lists(self):
+        """everything readable from the lists of the non-random sub-object, each read path on its own"""
+        out = []
+        for l in (self.o.s.rs, self.o.s.rf):
+            try:
+                n, sz = len(l), int(l.size)
+            except Exception as e:
+                n, sz = -1, repr(e)[:60]
+            try:
+                it = [int(v) for v in l]
+            except Exception as e:
+                it = repr(e)[:60]
+            out.append([n, sz, it])
+        return out
 
     # ---- reference ---------------------------------------------------------
     def rl_values(self):
@@ -290,13 +314,13 @@ def _explore_call(run, bound, st, cnt, viol, exp, reached, random_now, variant, 
             viol.append({"subcheck": "exception", "case": case, "observed": list(out), "expected": "ok or SolveFailure",
                          "what": "%r after %r raised %r" % (op, hist, out)})
             continue
-        for f in ("a", "b", "x", "sp", "nl"):
+        for f in ("a", "b", "x", "sp", "nl", "sl"):
             is_rand = f in random_now      # random fields may change even when the call fails
             if not is_rand and after[f] != before[f]:
                 viol.append({"subcheck": "frame", "case": case, "observed": [f, after[f]], "expected": [f, before[f]],
                              "what": "%r after %r (%s): field %s is not random in this call but changed %r -> %r" % (
                                  op, hist, out[0], f, before[f], after[f])})
-            if f != "nl" and not (0 <= after[f] <= 3):
+            if f not in ("nl", "sl") and not (0 <= after[f] <= 3):
                 viol.append({"subcheck": "range", "case": case, "observed": [f, after[f]], "expected": "0..3",
                              "what": "field %s = %r out of range" % (f, after[f])})
         if out[0] == "ok":
